@@ -730,12 +730,13 @@ func (rn *runner) do(o op) {
 		}
 		rn.lastCallLoop = rn.servedSinceSd
 		rn.servedSinceSd = false
-		// which connections are idle keep-alive connections right now
-		idle := fasthttp.VerifIdleConns(rn.s)
-		now := time.Now().Unix()
+		// which connections are idle keep-alive connections right now - judged from the CLIENT's side, not from the server's idle marker:
+		// at least one request was answered, every request sent has been answered, the client is still there and sends nothing, the
+		// connection goroutine waits in Read
 		for _, r := range rn.conns {
-			t, ok := idle[r.c]
-			r.idleAtSd = ok && t != 0 && t <= now && !r.inHandler.Load() && r.heldRead == nil && r.heldTop == nil &&
+			st := int(r.started.Load())
+			r.idleAtSd = st >= 1 && r.sent == st && r.c.responses() == st && !r.clientGone && !r.inHandler.Load() &&
+				r.heldRead == nil && r.heldTop == nil && r.heldNew == nil &&
 				r.c.get(func() bool { return r.c.blocked && !r.c.closed && len(r.c.in) == 0 })
 		}
 		if rn.pick(func(r *crec) bool { return r.heldTop != nil && r.c.get(func() bool { return r.c.topHeld }) }, 0) != nil {
